@@ -28,25 +28,30 @@ ID = "C11"
 LEVEL = "exploration"
 TECHNIQUE = ("bounded-exhaustive enumeration of (pipeline, requested output set, irredundant provided set) against a backward-reachability "
              "selection reference; values by the DAG evaluator / MapSpec denotation with the provided intermediates substituted; call log compared exactly")
-RULE = ("dag family: every G-DAG pipeline of N functions over roots {x,y} (0..2 parameters, 1 or 2 outputs, nullary functions included; quick: N<=2 "
-        "undecorated and with one decoration of {signature default, PipeFunc default, bound root, bound upstream, shared default, renames}, N=3 "
-        "undecorated with at most one tuple-output function; thorough: all of N=3 and N=3 decorated single-output) x every non-empty set S of output names "
-        "(plus the spelling that names a completely requested tuple-output function by its tuple) x every irredundant provided set I of roots and "
-        "intermediates disjoint from S (every name of I is met by the backward traversal from S that stops at I): root-only, interior-only and mixed "
-        "cuts, with defaulted roots both provided and omitted; plus every non-computable request obtained by deleting one name from a computable I. "
-        "map family: five MapSpec pipelines of C03 + two with a parameterless producer (quick adds G-MAP 1-function pipelines and 2-function pipelines "
-        "over root x[i]; thorough all 2-function G-MAP pipelines and the 3-function ones over root x[i]) x every S x every irredundant I (marker arrays "
-        "for intermediates) x the deletions. Entry points: subpipeline+call per output, map(output_names=S), map(auto_subpipeline=True) when S is the "
-        "leaf set, subpipeline(...).map. non-trivial = distinct (pipeline, S, I) that cuts at an intermediate, leaves a function out, or is rejected")
+RULE = ("dag family: every G-DAG pipeline of N functions over roots {x,y} (0..2 parameters, 1 or 2 outputs, parameterless functions included; quick: "
+        "N<=2 undecorated and with one decoration of {signature default, PipeFunc default, bound root, bound upstream, shared default}, N=3 undecorated "
+        "with at most one tuple-output function; thorough adds N=2 renames, all other N=3 and N=3 decorated with at most one tuple-output function) x "
+        "every non-empty set S of output names (plus the spelling that names a completely requested tuple-output function by its tuple) x every "
+        "irredundant provided set I of roots and intermediates disjoint from S (every name of I is met by the backward traversal from S that stops at "
+        "I): empty, root-only, interior-only and mixed cuts, defaulted roots both provided and omitted; plus every non-computable request obtained by "
+        "deleting one name from a computable I. map family: the five MapSpec pipelines of C03 + two with a parameterless producer, G-MAP 1-function "
+        "pipelines and 2-function pipelines over root x[i] (thorough: all 2-function G-MAP pipelines and the 3-function ones over root x[i] whose first "
+        "function has no internal axis) x every S x every irredundant I (marker arrays for provided intermediates) x the deletions. Entry points: "
+        "subpipeline(I,S) + one call per requested output; map(output_names=S) (auto_subpipeline=True iff I holds an intermediate); "
+        "map(auto_subpipeline=True) without output_names when S is the leaf set and every leaf lies below a provided name; subpipeline(I,S).map. "
+        "non-trivial = distinct (pipeline, S, I) that cuts at an intermediate, leaves a function out, or must be rejected")
 ASSUMPTIONS = ["selection reference = backward reachability cut by provided names (this module, ~40 lines); values from vmc/gen_dag.py:ref_eval and "
                "vmc/gen_map.py:ref_map restricted to the selected functions",
                "user functions are uninterpreted term builders; provided intermediates are marker values distinct from every computed term",
                "unconstrained (only soundness is demanded: if the request is answered, values and call log must be the reference's): a provided member of "
                "a tuple-output function whose sibling output is still needed; a root whose only default is declared by a function outside the selection",
                "S and I are disjoint; a provided name that the selection does not use is a surplus input (C12's business) and is never generated",
+               "map(auto_subpipeline=True) without output_names is only exercised where 'all leaf nodes' (documentation) and 'the leaves downstream of "
+               "the inputs' (tests/test_pipeline.py::test_subpipeline) select the same outputs",
                "an error 'names what is missing' if a missing root, or an unprovided intermediate between S and a missing root, occurs as an identifier in "
-               "a quoted/backticked part of the message (in the whole message if nothing is quoted)"]
-BUDGET = {"quick": 70.0, "thorough": 900.0}
+               "a quoted/backticked part of the message (in the whole message if nothing is quoted)",
+               "a MapSpec pipeline whose unrestricted map disagrees with the denotation is skipped (C01's business)"]
+BUDGET = {"quick": 120.0, "thorough": 900.0}
 
 
 def _quiet(fn, *a, **k):
@@ -211,6 +216,18 @@ def leaves(g):
     return {i for i, f in enumerate(g) if not (set(f["outs"]) & consumed)}
 
 
+def auto_applies(g, names, given):
+    """map(auto_subpipeline=True) without output_names: the outputs are 'all leaf nodes' by the documentation and 'the leaves downstream of the
+    given inputs' by the repository's test_subpipeline; the entry is exercised where both readings select S"""
+    prod = producers(g)
+    lv = leaves(g)
+    if {prod[n] for n in names} != lv:
+        return False
+    anc = ancestors(g)
+    nodes = {prod.get(n, n) for n in given}
+    return all(anc[i] & nodes for i in lv)
+
+
 _SEG = re.compile(r"`([^`]*)`|'([^']*)'|\"([^\"]*)\"")
 _TOK = re.compile(r"[A-Za-z_][A-Za-z_0-9]*")
 
@@ -234,6 +251,11 @@ def _flat(s_list):
     return out
 
 
+def _exc_sig(kind, e):
+    site = findings.exc_site(e)
+    return {"kind": kind, "exc": type(e).__name__, "site": site, "at": f"{type(e).__name__}@{site}"}  # 'at' lets an entry list exact pairs
+
+
 class _Ctx:
     """collects verdicts of one request"""
 
@@ -254,11 +276,11 @@ class _Ctx:
         """an exception from an entry point under demand level `cls`"""
         self.outcomes.append(f"{entry}:{type(e).__name__}")
         if cls == "must":
-            self.add(findings.exc_sig(e), f"{entry}: computable request {self.where()} refused{' at ' + step if step else ''}: "
+            self.add(_exc_sig("exception", e), f"{entry}: computable request {self.where()} refused{' at ' + step if step else ''}: "
                                                          f"{type(e).__name__}: {str(e)[:200]}")
         elif cls == "reject":
             if not (names_in_message(str(e)) & front):
-                self.add({"kind": "rejection-names-nothing-missing", "exc": type(e).__name__, "site": findings.exc_site(e)},
+                self.add(_exc_sig("rejection-names-nothing-missing", e),
                          f"{entry}: {self.where()} is rejected but the message names none of {sorted(front)}: {type(e).__name__}: {str(e)[:200]}")
 
     def answered(self, entry, cls):
@@ -329,7 +351,7 @@ def run_dag(case, p=None):  # noqa: C901, PLR0912, PLR0915
 
     # ---- map(output_names=S) and map(auto_subpipeline=True) ------------------------------------
     entries = [("map", {"output_names": set(s_objs), "auto_subpipeline": any(n in prod for n in given)})]
-    if {prod[n] for n in names} == leaves(g):
+    if auto_applies(g, names, cx.given):
         entries.append(("auto", {"auto_subpipeline": True}))
     for entry, kw in entries:
         terms.LOG.clear()
@@ -403,7 +425,7 @@ def run_map(case, p=None):  # noqa: C901, PLR0912
 
     entries = [("map", lambda: p.map(fresh_inputs(), output_names=set(s_objs), internal_shapes=ish, parallel=False, storage="dict",
                                      auto_subpipeline=any(n in prod for n in given)))]
-    if {prod[n] for n in names} == leaves(g):
+    if auto_applies(g, names, cx.given):
         entries.append(("auto", lambda: p.map(fresh_inputs(), internal_shapes=ish, parallel=False, storage="dict", auto_subpipeline=True)))
     if case.get("sub_map", True):
         entries.append(("sub-map", lambda: p.subpipeline(inputs=set(given), output_names=set(s_objs)).map(
